@@ -374,6 +374,127 @@ def single_source_cases(ctx):
     return out
 
 
+# --------------------------------------------------------------------------
+# std's trait-impl limits: arrays around 32, tuples around 12
+# --------------------------------------------------------------------------
+def _arr(item, n):
+    return {"type": "array", "items": item, "minItems": n, "maxItems": n}
+
+
+def limit_cases(ctx):
+    """Arrays [T; N] at N = 0, 1, 31, 32, 33, 48, 64 and tuples of 11..14 components, with item types that
+    do / do not implement Default.  `add` steps without a name put the array / tuple into the type space as
+    an UN-named entry that no emitted item mentions, so the module compiles for every N and the bound chunk
+    `a::<[T; N]>()` is judged by rustc; in the property / definition positions the module does not compile for
+    N > 32 (serde, Debug: C01), there the std-closed idents are judged by the standalone rustc run."""
+    thorough = ctx.tier == "thorough"
+    lengths = [0, 1, 31, 32, 33, 48, 64] if thorough else [0, 1, 32, 33, 48]
+    defs = {
+        "WithDefault": {"type": "object", "properties": {"a": {"type": "integer"}}, "default": {}},
+        "Plain": {"type": "object", "required": ["a"], "properties": {"a": {"type": "integer"}}},
+        "Color": {"type": "string", "enum": ["red", "green"], "default": "red"},
+    }
+    items = [("i64", {"type": "integer"}, None), ("string", {"type": "string"}, None),
+             ("nonzero", {"type": "integer", "minimum": 1}, None),
+             ("with-default", {"$ref": "#/definitions/WithDefault"}, ["WithDefault"]),
+             ("plain", {"$ref": "#/definitions/Plain"}, ["Plain"])]
+    if thorough:
+        items += [("bool", {"type": "boolean"}, None), ("uuid", {"type": "string", "format": "uuid"}, None),
+                  ("enum-default", {"$ref": "#/definitions/Color"}, ["Color"]),
+                  ("nested", _arr({"type": "integer"}, 2), None), ("opt", {"type": ["integer", "null"]}, None)]
+    out = []
+    k = 0
+
+    def add(name, steps, lim):
+        nonlocal k
+        out.append({"name": "limit:" + name, "origin": "std-limits", "settings": SETTINGS[k % len(SETTINGS)],
+                    "steps": steps, "limit": lim})
+        k += 1
+
+    for n in lengths:
+        for tag, item, needs in items:
+            pre = [{"op": "refs", "defs": {d: defs[d] for d in needs}}] if needs else []
+            a = _arr(item, n)
+            lim = {"kind": "array", "n": n, "item": tag}
+            add("array[%s;%d]@unnamed" % (tag, n), pre + [{"op": "add", "schema": a}], lim)
+            add("array[%s;%d]@unnamed-tuple" % (tag, n),
+                pre + [{"op": "add", "schema": {"type": "array", "items": [a, {"type": "integer"}], "minItems": 2, "maxItems": 2}}], lim)
+            dd = {d: defs[d] for d in needs} if needs else {}
+            add("array[%s;%d]@property" % (tag, n),
+                [{"op": "root", "doc": {"definitions": dict(dd, H={"type": "object", "required": ["p"],
+                                                                  "properties": {"p": a, "o": a}})}}], lim)
+            add("array[%s;%d]@definition" % (tag, n), [{"op": "root", "doc": {"definitions": dict(dd, X=a)}}], lim)
+            if thorough:
+                add("array[%s;%d]@unnamed-array-of-array" % (tag, n), pre + [{"op": "add", "schema": _arr(a, 2)}], lim)
+                add("array[%s;%d]@unnamed-vec" % (tag, n), pre + [{"op": "add", "schema": {"type": "array", "items": a}}], lim)
+    # Box around an array (cycle breaking) at a small and at a large N
+    for n in ([2, 33] if not thorough else [1, 2, 32, 33, 48]):
+        add("array[box;%d]@cycle" % n, [{"op": "root", "doc": {"definitions": {"Node": {
+            "type": "object", "properties": {"kids": _arr({"$ref": "#/definitions/Node"}, n), "v": {"type": "integer"}}}}}}],
+            {"kind": "array", "n": n, "item": "box"})
+    for m in ([11, 12, 13, 14] if thorough else [12, 13]):
+        for tag, comp in (("i64", [{"type": "integer"}] * m), ("mixed", ([{"type": "string"}, {"type": "boolean"}] * 7)[:m]),
+                          ("one-nonzero", [{"type": "integer"}] * (m - 1) + [{"type": "integer", "minimum": 1}])):
+            t = {"type": "array", "items": comp, "minItems": m, "maxItems": m}
+            lim = {"kind": "tuple", "n": m, "item": tag}
+            add("tuple%d[%s]@unnamed" % (m, tag), [{"op": "add", "schema": t}], lim)
+            add("tuple%d[%s]@unnamed-array" % (m, tag), [{"op": "add", "schema": _arr(t, 2)}], lim)
+            add("tuple%d[%s]@property" % (m, tag),
+                [{"op": "root", "doc": {"definitions": {"H": {"type": "object", "required": ["p"], "properties": {"p": t}}}}}], lim)
+    return out
+
+
+IDENT_OK = {"bool", "i8", "i16", "i32", "i64", "u8", "u16", "u32", "u64", "f32", "f64", "usize", "Vec"}
+
+
+def std_closed(ident):
+    """The ident mentions nothing but ::std paths and primitives (can be judged without the generated module)."""
+    t = re.sub(r"::\s*std\s*(::\s*[A-Za-z_][A-Za-z0-9_]*\s*)+", " ", ident)
+    t = re.sub(r"\b\d+usize\b", " ", t)
+    return all(w in IDENT_OK for w in re.findall(r"[A-Za-z_][A-Za-z0-9_]*", t))
+
+
+SA_MSGS = {}
+
+
+def standalone_bounds(ctx, pairs):
+    """pairs: list of (key, ident, trait).  One rustc run (1.80.1, no dependencies) over a file with one line per
+    pair; returns {key: True(compiles) / False / None(rustc did not run)}."""
+    if not pairs:
+        return {}
+    d = os.path.join(vlib.WORK, "cases", "c17-standalone")
+    os.makedirs(d, exist_ok=True)
+    with open(os.path.join(d, "rust-toolchain.toml"), "w") as f:
+        f.write("[toolchain]\nchannel = \"1.80.1\"\n")
+    lines = ["#![allow(warnings)]"]
+    for k, (key, ident, tr) in enumerate(pairs):
+        lines.append("mod p%d { fn a<T: %s>() {} pub fn b() { a::<%s>(); } }" % (k, TRAIT_PATH[tr], ident))
+    with open(os.path.join(d, "lib.rs"), "w") as f:
+        f.write("\n".join(lines) + "\n")
+    rc, out, err = vlib.sh(["rustc", "--edition", "2021", "--crate-type", "lib", "--emit", "metadata", "--error-format", "json",
+                            "-o", os.path.join(d, "lib.rmeta"), "lib.rs"], cwd=d, timeout=600)
+    bad = set()
+    nerr = 0
+    SA_MSGS.clear()
+    for line in err.splitlines():
+        try:
+            m = json.loads(line)
+        except ValueError:
+            continue
+        if m.get("level") != "error":
+            continue
+        for sp in m.get("spans", []):
+            if sp.get("is_primary"):
+                bad.add(sp["line_start"] - 2)
+                nerr += 1
+                if 0 <= sp["line_start"] - 2 < len(pairs):
+                    SA_MSGS[pairs[sp["line_start"] - 2][0]] = [(m.get("code") or {}).get("code"), m.get("message")]
+    if rc != 0 and not bad:
+        ctx.log("standalone rustc failed without attributable errors: " + err[-400:])
+        return {key: None for key, _, _ in pairs}
+    return {key: (k not in bad) for k, (key, _, _) in enumerate(pairs)}
+
+
 def load_corpus():
     out = []
     for p in sorted(glob.glob(os.path.join(CORPUS, "*.json"))):
@@ -412,6 +533,7 @@ def gen_cases(ctx):
     cases.append({"name": "maptype", "origin": "kinds", "settings": {"map_type": "::std::collections::BTreeMap"},
                   "steps": [{"op": "root", "doc": KINDS_DOC}]})
     cases += single_source_cases(ctx)
+    cases += limit_cases(ctx)
     rnd = random.Random(ctx.seed * 1000003 + 17)
     g = G(rnd)
     nrand = 40 if ctx.tier == "quick" else 320
@@ -773,6 +895,27 @@ def run(ctx):
         model_ok = False
         ctx.oblige("model HasImpl.v evaluates on the real dumps", False, str(e)[-3000:])
 
+    # modules that do not compile (C01's business) cannot judge the bound chunks: judge the idents that mention
+    # nothing but std by a dependency-free rustc run instead
+    sa_pairs = []
+    for i in idx:
+        if w.status[i] == "compile-error":
+            for ident, t in unique_idents(gens[i]).items():
+                if std_closed(ident):
+                    for tr in TRAITS:
+                        sa_pairs.append(((i, t["id"], tr), ident, tr))
+    sa_dedup = {}
+    for key, ident, tr in sa_pairs:
+        sa_dedup.setdefault((nows(ident), tr), (key, ident, tr))
+    sa_res = standalone_bounds(ctx, list(sa_dedup.values()))
+    standalone = {}
+    sa_msg = {}
+    for key, ident, tr in sa_pairs:
+        standalone[key] = sa_res.get(sa_dedup[(nows(ident), tr)][0])
+        sa_msg[key] = SA_MSGS.get(sa_dedup[(nows(ident), tr)][0])
+    ctx.coverage["standalone_rustc_bound_pairs (std-closed idents of non-compiling modules)"] = {
+        "pairs": len(sa_pairs), "distinct": len(sa_dedup), "judged": sum(1 for v in standalone.values() if v is not None)}
+    limit_stats = {}
     k1_mis, k4_mis, k6_mis, kcls_mis, b_mis, n_mis, u_mis = [], [], [], [], [], [], []
     single_stats = {}
     n_token_checks = 0
@@ -858,9 +1001,18 @@ def run(ctx):
                     if (kd == "1") != (cls == "display-on-string-constrained-newtype") or \
                             (kn == "1") != (cls == "default-on-nonzero-integer"):
                         kcls_mis.append({"case": c["name"], "type": t["name"], "trait": tr, "coq": kd + kn, "py": cls})
-                if st != "ok":
-                    continue
-                compiled = (i, "b-%d-%s" % (rep_t["id"], tr)) not in w.chunk_failures
+                if st == "ok":
+                    compiled = (i, "b-%d-%s" % (rep_t["id"], tr)) not in w.chunk_failures
+                else:
+                    compiled = standalone.get((i, rep_t["id"], tr))
+                    if compiled is None:
+                        continue
+                if c.get("limit") and e["kind"] in ("array", "tuple") and tr == "Default":
+                    lk = "%s n=%d" % (e["kind"], e["len"] if e["kind"] == "array" else len(e["ids"]))
+                    ls = limit_stats.setdefault(lk, {"judged": 0, "has_impl_true": 0, "rustc_accepts": 0})
+                    ls["judged"] += 1
+                    ls["has_impl_true"] += int(api is True)
+                    ls["rustc_accepts"] += int(bool(compiled))
                 if me and ((me["I"][ti] == "1") != compiled):
                     if me["I"][ti] == "1":
                         k6_mis.append({"case": c["name"], "type": t["name"], "trait": tr, "model_implements": True,
@@ -875,7 +1027,9 @@ def run(ctx):
                     else:
                         report({"kind": "has_impl-true-but-bound-does-not-compile", "case": c["name"], "type": t["name"],
                                 "ident": t["ident"], "trait": tr,
-                                "rustc": w.chunk_failures.get((i, "b-%d-%s" % (rep_t["id"], tr)), [])[:1]}, cls)
+                                "rustc": (w.chunk_failures.get((i, "b-%d-%s" % (rep_t["id"], tr)), [])[:1]
+                                          or [sa_msg.get((i, rep_t["id"], tr)), "standalone rustc (module itself does not compile)"])},
+                               cls)
             if me:
                 api_b = t.get("builder") is not None
                 scan_b = named and e["kind"] == "struct" and any(
@@ -914,10 +1068,23 @@ def run(ctx):
     w_bad = [cases[i]["name"] for i in idx if model.get(i) and model[i]["W"] != "1"]
     ctx.oblige("hypothesis newtype_inner_ok = true on every real dump", model_ok and not w_bad, json.dumps(w_bad[:5]))
     expected_ce = {c["name"] for c in cases if c.get("expect", {}).get("status") == "compile-error"}
+    # emitted items that mention [T; N>32] or a tuple of > 12 components fail serde's / Debug's bounds (C01 finding);
+    # their std-closed idents are judged by the standalone run, the rest by the @unnamed spaces
+    expected_ce |= {c["name"] for c in cases if c.get("limit") and "@unnamed" not in c["name"]
+                    and c["limit"]["n"] > (32 if c["limit"]["kind"] == "array" else 12)}
     unobservable = [u for u in unobservable if u["case"] not in expected_ce]
     n_unobs_fix = len([u for u in unobservable if not u["case"].startswith("random")])
     ctx.oblige("fixture / kinds / replace modules are observable (compile)", n_unobs_fix == 0,
                json.dumps(unobservable[:4]))
+    ctx.coverage["std_limit_types (Default bound on the array / tuple type itself, by size)"] = limit_stats
+    need = ["array n=32", "array n=33", "array n=48", "tuple n=12", "tuple n=13"]
+    ctx.oblige("std-limit witnesses: arrays of 32, 33, 48 and tuples of 12, 13 components each have >= 3 types whose "
+               "Default bound was judged by rustc, some accepted at 32 / 12 and none at 33 / 48 / 13",
+               all(limit_stats.get(k, {}).get("judged", 0) >= 3 for k in need)
+               and limit_stats.get("array n=32", {}).get("rustc_accepts", 0) > 0
+               and limit_stats.get("tuple n=12", {}).get("rustc_accepts", 0) > 0
+               and all(limit_stats.get(k, {}).get("rustc_accepts", 1) == 0 for k in ("array n=33", "array n=48", "tuple n=13")),
+               json.dumps(limit_stats))
     ctx.coverage["token_level_uses_checks (spaces)"] = n_token_checks
     ctx.coverage["single_source_spaces (per crate: spaces / tokens mention the crate / flag true; per construct [n, tokens, flag])"] = single_stats
     n_single = len([c for c in cases if c.get("single")])
